@@ -146,8 +146,11 @@ pub fn eval(cat: &Catalog, case: &Case) -> Evaluated {
                 // N zero-sized elements encode in O(log N) bytes, so no decoder can consume input
                 // per iteration for such targets; they are held to the step budget only where the
                 // format rejects the bytes (DESIGN 9.2)
-                Outcome::Hang
-                    if e.zero_sized_elems && !matches!(ref_decode(&cat.reg, &e.ty, &case.input), Err(w) if w != Why::ModelFuel) =>
+                Outcome::Hang if e.zero_sized_elems && {
+                    // held to the budget only if the format rejects the bytes without a long loop
+                    let (r, steps) = model::dec::ref_decode_metered(&cat.reg, &e.ty, &case.input);
+                    r.is_ok() || steps > (1 << 16)
+                } =>
                 {
                     None
                 }
